@@ -59,6 +59,12 @@ FIXED = [
      "(also C03, C04, C06, C15)"),
     ("C09", "C09/protocols-disagree:http", "57c681e",
      "entry with a host but no port: Gopher defaults to the server's port, HTTP/Gemini/Spartan hard-coded 70 (also C06)"),
+    ("C11", "C11/dir-cache-prefix:empty-reply:EOFError", "352a5d6",
+     "every proper prefix of .cache.pygopherd.dir (0..size-1), a zero-filled file, and a reader racing a writer: "
+     "unguarded pickle.load raised EOFError/UnpicklingError, empty reply (also C14)"),
+    ("C12", "C12/directory-lost:dangling-symlink:error-reply", "9218e4f",
+     "one dangling symlink, FIFO, socket, a name containing '..' / '.\\' / '\\\\', a child that vanished or "
+     "whose stat failed made the whole directory answer not-found"),
 ]
 
 KNOWN = [
